@@ -54,11 +54,22 @@ def prepare_scratch(scratch):
     t0 = time.time()
     os.makedirs(scratch, exist_ok=True)
     dst = os.path.join(scratch, "repo")
+    # tools/run_seeded.py patches /repo for the moment a copy is taken; other runs wait for it
+    lk = None
+    if os.environ.get("VERIF_REPO_LOCKED") != "1":
+        try:
+            import fcntl
+            lk = open("/tmp/verif-repo.lock", "a")
+            fcntl.flock(lk, fcntl.LOCK_SH)
+        except OSError:
+            lk = None
     subprocess.run(
         ["rsync", "-a", "--delete", "--exclude", "/target", "--exclude", "/.git", "--exclude", "/assets",
          "--exclude", "/fuzz", "--exclude", "/docs", "--exclude", "/bindings", "--exclude", "/benchmarks/benches/testdata",
          "--exclude", "/benchmarks/target", "--exclude", "/examples", "--exclude", "/benches",
          REPO + "/", dst + "/"], check=True)
+    if lk is not None:
+        lk.close()
     hdst = os.path.join(scratch, "harness")
     if os.path.exists(hdst):
         shutil.rmtree(hdst)
